@@ -28,13 +28,15 @@ RULE = ("complete product: CFG shapes (<= N blocks, out-degree <= 2, all reachab
 LEVEL_TEXT = ("Bounded-exhaustive enumeration of small IR graphs; the three analyses run on the real classes and are compared, "
               "fact by fact, with brute-force path search straight from the definitions. Data-flow code is shape-generic: "
               "mistakes in propagation order, joins or kill sets show on 3-4 block graphs.")
-LEVEL_NOTE = ("Trusted: the ~60-line point-graph search in this module. Register-only programs (memory cells are not variables "
-              "with an exact path-based meaning); DiGraphLivenessSSA is not covered here.")
+LEVEL_NOTE = ("Trusted: the ~60-line point-graph search in this module. Reaching definitions / def-use on register-only programs "
+              "(memory cells are not variables with an exact path-based meaning); liveness additionally on programs with loads and "
+              "stores through registers, compared on registers only; DiGraphLivenessSSA is not covered here.")
 TECHNIQUE = "bounded-exhaustive enumeration of IR graphs against brute-force path-based definitions"
 ASSUMPTIONS = ["declared output registers of the fake architecture: r and sp"]
 
 ALPHABET_Q = ["a=b", "a=a+1", "b=1", "c=a+b", "swap", "r=a", "zf=a==b"]
 ALPHABET_T = ["a=b", "a=a+1", "b=1", "swap", "r=a", "zf=a==b"]
+ALPHABET_M = ["a=b", "a=a+1", "@[a]=b", "b=@[a]", "r=a", "@[sp+4]=a"]      # liveness of registers used as load/store addresses
 CONDS = ["zf"]
 
 
@@ -151,8 +153,13 @@ def check_graph(shape_idx, n, body_idx, cond_idx, alphabet, end_const, extra=Fal
     vs = []
     blocks, succ = point_graph(g)
     idx_of = {l: i for i, l in enumerate(g.locs)}
+    with_mem = any("@" in name for name in alphabet)
     # ---- reaching definitions
     try:
+        if with_mem:
+            # memory alphabets serve the liveness comparison only (registers read by load/store ADDRESSES are uses);
+            # memory cells are not variables with an exact path-based meaning
+            raise _SkipRD()
         rd = ReachingDefinitions(g.ircfg)
         ref = ref_reaching(g)
         for (bi, i) in succ:
@@ -180,6 +187,8 @@ def check_graph(shape_idx, n, body_idx, cond_idx, alphabet, end_const, extra=Fal
             miss = want_edges - got_edges
             vs.append(violation("defuse:%s:%s" % ("missing" if miss else "extra", kind),
                                 "%s: def-use edges differ: missing %s extra %s" % (desc, sorted(map(str, miss))[:3], sorted(map(str, got_edges - want_edges))[:3]), case))
+    except _SkipRD:
+        pass
     except Exception as e:
         vs.append(violation("reaching/defuse:raise:%s:%s" % (type(e).__name__, kind), "%s: %r" % (desc, e), case))
     # ---- liveness
@@ -194,9 +203,12 @@ def check_graph(shape_idx, n, body_idx, cond_idx, alphabet, end_const, extra=Fal
             infos = lv.blocks[g.locs[bi]].infos
             for i in range(len(blk)):
                 for nm, got, want in (("in", set(infos[i].var_in), ref[(bi, i)]), ("out", set(infos[i].var_out), ref[(bi, i + 1)])):
+                    if with_mem:
+                        got = set(x for x in got if x.is_id())
+                        want = set(x for x in want if x.is_id())
                     if got != want:
                         miss = want - got
-                        vs.append(violation("liveness:%s:%s" % ("missing" if miss else "extra", kind),
+                        vs.append(violation("liveness:%s:%s%s" % ("missing" if miss else "extra", kind, "/mem-alphabet" if with_mem else ""),
                                             "%s: live-%s of B%d[%d]: got {%s}, path-based {%s}" % (
                                                 desc, nm, bi, i, ",".join(sorted(map(str, got))), ",".join(sorted(map(str, want)))), case))
                         done = True
@@ -208,6 +220,10 @@ def check_graph(shape_idx, n, body_idx, cond_idx, alphabet, end_const, extra=Fal
     except Exception as e:
         vs.append(violation("liveness:raise:%s:%s" % (type(e).__name__, kind), "%s: %r" % (desc, e), case))
     return vs
+
+
+class _SkipRD(Exception):
+    pass
 
 
 def _fmt(d):
@@ -252,9 +268,10 @@ def _shard(args):
 
 def run(ctx):
     if ctx.quick:
-        plan = [(1, 2, ALPHABET_Q), (2, 1, ALPHABET_Q), (3, 1, ALPHABET_T)]
+        plan = [(1, 2, ALPHABET_Q), (2, 1, ALPHABET_Q), (3, 1, ALPHABET_T), (1, 2, ALPHABET_M), (2, 1, ALPHABET_M)]
     else:
-        plan = [(1, 3, ALPHABET_Q), (2, 2, ALPHABET_Q), (3, 1, ALPHABET_Q), (4, 1, ["a=b", "a=a+1", "r=a", "zf=a==b"])]
+        plan = [(1, 3, ALPHABET_Q), (2, 2, ALPHABET_Q), (3, 1, ALPHABET_Q), (4, 1, ["a=b", "a=a+1", "r=a", "zf=a==b"]),
+                (1, 3, ALPHABET_M), (2, 2, ALPHABET_M), (3, 1, ALPHABET_M)]
     shards = []
     for n, maxlen, alphabet in plan:
         ns = len(irgen.shapes(n))
